@@ -21,8 +21,8 @@ MOD = "mc.props.C15"
 
 ACTIONS = [
     "full", "mesh_only", "part_only", "sink_only", "value_pred", "box", "level_le_2", "cpu_list_2",
-    "sortby_part", "sortby_sink", "sortby_mesh", "refused_sortby_with_level_cap", "refused_cpu_list_with_box", "mesh_vars", "part_vars", "box_far_corner",
-    "groups_off_mesh", "refused_predicate_raises",
+    "sortby_part", "sortby_sink", "sortby_mesh", "refused_sortby_with_level_cap", "refused_cpu_list_with_box", "mesh_vars", "part_vars", "amr_vars_only",
+    "hydro_var_only", "box_far_corner", "groups_off_mesh", "refused_predicate_raises", "grav_var_only",
 ]
 
 
@@ -40,7 +40,7 @@ def make_output(variant=0):
     octs = tree.all_octs()
     ghosts = {k: {o for o in octs if owner[o] != k and (o[0] + k) % 2 == 0} for k in range(3)}
     out = M1.Output(tree, ncpu=3, owner=owner, ghosts=ghosts, bound_key=bk, unit_d=2.0, unit_l=3.0, unit_t=5.0,
-                    boxlen=2.0, hydro="rvp", grav=False)
+                    boxlen=2.0, hydro="rvp", grav=True)
     out.part = M1.make_part(M1.part_descriptor(ndim), [2, 3, 1])
     out.sink = M1.make_sink(ndim, 3)
     # a column whose order is not the file order, so that a sorted table differs from the stored one
@@ -99,6 +99,13 @@ def action_kwargs(name, out):
         return {"select": {"mesh": {"level": lambda l: l <= 2, "density": boom}}}
     if name == "mesh_vars":
         return {"select": {"mesh": ["density", "position_x", "position_y", "position_z", "level"]}}
+    # name lists that only one of the readers of the group can satisfy (the group is served by the amr, hydro and grav readers)
+    if name == "amr_vars_only":
+        return {"select": {"mesh": ["level", "dx"]}}
+    if name == "hydro_var_only":
+        return {"select": {"mesh": ["density"]}}
+    if name == "grav_var_only":
+        return {"select": {"mesh": ["grav_potential"]}}
     if name == "part_vars":
         return {"select": {"part": ["mass", "identity"]}}
     raise KeyError(name)
@@ -242,7 +249,7 @@ def make_spec(name, params):
 
 
 def run(ctx):
-    acts = ACTIONS if ctx.thorough else ACTIONS[:15]
+    acts = ACTIONS if ctx.thorough else ACTIONS[:17]
     depth = 4 if ctx.thorough else 3
     und = 3 if ctx.thorough else 2
     covs, accs = [], []
